@@ -3,7 +3,7 @@
    (default) state, the objects of a slab waiting for deletion are all pooled, slabs (listed or
    waiting for deletion) are pairwise disjoint. *)
 From Coq Require Import List Arith Bool Lia Permutation.
-From Muscle Require Import Conc.Pool Conc.PoolProofs Conc.RefCnt Conc.RefInv Conc.RefExcl Conc.RefStep Conc.RefActs.
+From Muscle Require Import Conc.Pool Conc.PoolProofs Conc.RefCnt Conc.RefInv Conc.RefExcl Conc.RefStep Conc.RefActs Conc.RefActs3 Conc.RefProofs.
 Import ListNotations.
 Local Open Scope nat_scope.
 
@@ -21,9 +21,14 @@ Definition pend (s : state) : list slab := concat (map (fun t => slabs_of (t_tod
 
 Definition owned_by (l : list slab) (x : nat) : Prop := exists sd, In sd l /\ owns N sd x = true.
 
+Definition pend_ok (hlen : nat) (l : list slab) : Prop :=
+  Forall (fun sd => sl_base sd + N <= hlen) l /\ NoDup (map sl_base l) /\
+  (forall sd sd' x, In sd l -> In sd' l -> owns N sd x = true -> owns N sd' x = true -> sl_base sd = sl_base sd').
+
 Record plink (s : state) : Prop := mkPlink {
   pl_wf : pool_wf N (length (s_heap s)) (s_pool s);
-  pl_all : cwf N (length (s_heap s)) (p_nextid (s_pool s)) (pend s ++ p_slabs (s_pool s));
+  pl_pendok : pend_ok (length (s_heap s)) (pend s);
+  pl_cross : forall x, owned_by (pend s) x -> ~ owned_by (p_slabs (s_pool s)) x;
   pl_free : forall x, pfree N (p_slabs (s_pool s)) x -> o_st (hobj s x) = Pooled /\ o_val (hobj s x) = 0;
   pl_used : forall x, pused N (p_slabs (s_pool s)) x -> o_st (hobj s x) = Live \/ o_st (hobj s x) = Releasing;
   pl_pend : forall x, owned_by (pend s) x -> o_st (hobj s x) = Pooled;
@@ -95,6 +100,32 @@ Definition obj_frame (ob ob' : obj) : Prop :=
      (o_st ob' = o_st ob \/ (o_st ob = Live /\ o_st ob' = Releasing)) /\
      (is_live ob = false -> o_val ob' = o_val ob)).
 
+Lemma pend_ok_perm : forall hlen l l', Permutation l l' -> pend_ok hlen l -> pend_ok hlen l'.
+Proof.
+  intros hlen l l' HP (H1 & H2 & H3). split; [|split].
+  - eapply Permutation_Forall; eauto.
+  - eapply Permutation_NoDup; [apply Permutation_map; eauto|auto].
+  - intros sd sd' x I1 I2. apply H3; eapply Permutation_in; try eassumption; apply Permutation_sym; auto.
+Qed.
+
+Lemma pend_ok_weaken : forall hlen hlen' l, hlen <= hlen' -> pend_ok hlen l -> pend_ok hlen' l.
+Proof.
+  intros hlen hlen' l Hle (H1 & H2 & H3). split; [|split]; auto.
+  rewrite Forall_forall in *. intros sd Hs. specialize (H1 sd Hs). lia.
+Qed.
+
+Lemma pend_owned_lt : forall hlen l x, pend_ok hlen l -> owned_by l x -> x < hlen.
+Proof.
+  intros hlen l x (H1 & _) (sd & Hin & Ho). rewrite Forall_forall in H1. specialize (H1 sd Hin). apply owns_spec in Ho. lia.
+Qed.
+
+Lemma all_owned_lt : forall s x, plink s -> owned_by (pend s ++ p_slabs (s_pool s)) x -> x < length (s_heap s).
+Proof.
+  intros s x P Hx. apply owned_app in Hx. destruct Hx as [Hx|Hx].
+  - eapply pend_owned_lt; eauto. apply (pl_pendok s P).
+  - eapply cwf_owned_lt; [apply pool_wf_cwf; apply (pl_wf s P)|auto].
+Qed.
+
 Lemma plink_frame : forall s s', plink s ->
   s_pool s' = s_pool s -> Permutation (pend s') (pend s) ->
   length (s_heap s) <= length (s_heap s') ->
@@ -102,15 +133,15 @@ Lemma plink_frame : forall s s', plink s ->
   (forall x, x < length (s_heap s) -> obj_frame (hobj s x) (hobj s' x)) ->
   plink s'.
 Proof.
-  intros s s' [P1 P2 P3 P4 P5 P6 P7] Ep HP Hlen Hnew Hold.
+  intros s s' P Ep HP Hlen Hnew Hold. pose proof P as [P1 P2 P2b P3 P4 P5 P6 P7].
   assert (HPall : Permutation (pend s' ++ p_slabs (s_pool s)) (pend s ++ p_slabs (s_pool s))) by (apply Permutation_app_tail; auto).
-  assert (Hlt : forall x, owned_by (pend s ++ p_slabs (s_pool s)) x -> x < length (s_heap s)) by (intros; eapply cwf_owned_lt; eauto).
   assert (Hpooled : forall x, owned_by (pend s ++ p_slabs (s_pool s)) x ->
             o_pooled (hobj s x) = true /\ obj_frame (hobj s x) (hobj s' x)).
-  { intros x Hx. split; auto. }
+  { intros x Hx. split; auto. apply Hold. eapply all_owned_lt; eauto. }
   constructor; rewrite ?Ep.
   - eapply pool_wf_weaken; eauto.
-  - eapply cwf_weaken; eauto. eapply cwf_perm; [apply Permutation_sym; eauto|auto].
+  - eapply pend_ok_weaken; eauto. eapply pend_ok_perm; [apply Permutation_sym; eauto|auto].
+  - intros x Hx. apply P2b. eapply owned_perm; eauto.
   - intros x Hx. destruct (P3 x Hx) as (A1 & A2).
     destruct (Hpooled x) as (B1 & (B2 & B3)); [apply owned_app; right; apply pfree_owned; auto|].
     destruct (B3 B1) as ([E|(E & _)] & Ev); [|congruence]. rewrite E, Ev; auto. unfold is_live. rewrite A1. reflexivity.
@@ -125,6 +156,250 @@ Proof.
     + eapply owned_perm; [apply Permutation_sym; eauto|]. apply P6; auto. congruence.
   - intros x Hx. assert (Hx' : owned_by (pend s ++ p_slabs (s_pool s)) x) by (eapply owned_perm; eauto).
     destruct (Hpooled x Hx') as (B1 & (B2 & _)). congruence.
+Qed.
+
+
+(* ------------------------------------------------------------------ heap changes that leave the pool's view intact *)
+
+Definition heap_frame (h h' : list obj) : Prop :=
+  length h <= length h' /\
+  (forall x, length h <= x -> o_pooled (get_obj h' x) = false) /\
+  (forall x, x < length h -> obj_frame (get_obj h x) (get_obj h' x)).
+
+Lemma obj_frame_refl : forall ob, obj_frame ob ob.
+Proof. intros ob. split; auto. Qed.
+
+Lemma obj_frame_trans : forall a b c, obj_frame a b -> obj_frame b c -> obj_frame a c.
+Proof.
+  intros a b c (A1 & A2) (B1 & B2). split; [congruence|]. intros Hp.
+  destruct (A2 Hp) as (A3 & A4). assert (Hpb : o_pooled b = true) by congruence. destruct (B2 Hpb) as (B3 & B4).
+  split.
+  - destruct A3 as [E|(E1 & E2)]; destruct B3 as [F|(F1 & F2)]; try (left; congruence); try (right; split; congruence).
+  - intros Hl. rewrite B4; auto. unfold is_live in *. destruct A3 as [E|(E1 & E2)]; [rewrite E; auto|rewrite E1 in Hl; discriminate].
+Qed.
+
+Lemma heap_frame_refl : forall h, heap_frame h h.
+Proof.
+  intros h. split; auto. split.
+  - intros x Hx. unfold get_obj. rewrite nth_overflow by auto. reflexivity.
+  - intros; apply obj_frame_refl.
+Qed.
+
+Lemma heap_frame_trans : forall a b c, heap_frame a b -> heap_frame b c -> heap_frame a c.
+Proof.
+  intros a b c (A1 & A2 & A3) (B1 & B2 & B3). split; [lia|]. split.
+  - intros x Hx. destruct (lt_dec x (length b)) as [Hl|Hl]; [|apply B2; lia].
+    destruct (B3 x Hl) as (E & _). rewrite E. apply A2; auto.
+  - intros x Hx. eapply obj_frame_trans; [apply A3; auto|apply B3; lia].
+Qed.
+
+Lemma frame_upd : forall h o ob', obj_frame (get_obj h o) ob' -> heap_frame h (upd h o ob').
+Proof.
+  intros h o ob' Hf. split; [rewrite upd_length; auto|]. split.
+  - intros x Hx. destruct (Nat.eq_dec o x) as [->|Hne].
+    + rewrite upd_oob by lia. unfold get_obj. rewrite nth_overflow by lia. reflexivity.
+    + rewrite get_upd_other by auto. unfold get_obj. rewrite nth_overflow by lia. reflexivity.
+  - intros x Hx. destruct (Nat.eq_dec o x) as [->|Hne].
+    + rewrite get_upd_same by auto. auto.
+    + rewrite get_upd_other by auto. apply obj_frame_refl.
+Qed.
+
+Lemma frame_inc : forall h o h', inc_obj h o = Some h' -> heap_frame h h'.
+Proof.
+  intros h o h' H. unfold inc_obj in H. destruct (is_live (get_obj h o)); inversion H; subst.
+  apply frame_upd. split; auto.
+Qed.
+
+Lemma frame_dec : forall h q h' z, dec_obj h q = Some (h', z) -> heap_frame h h'.
+Proof.
+  intros h q h' z H. unfold dec_obj in H. destruct (is_live (get_obj h q)) eqn:El; cbn [andb] in H; [|discriminate].
+  destruct (0 <? o_cnt (get_obj h q)); [|discriminate].
+  destruct (o_cnt (get_obj h q) - 1 =? 0); inversion H; subst; apply frame_upd; split; auto; intros Hp; cbn.
+  split; [right; split; auto; unfold is_live in El; destruct (o_st (get_obj h q)); auto; discriminate|auto].
+Qed.
+
+Lemma frame_dec_keep : forall h q h', dec_keep h q = Some h' -> heap_frame h h'.
+Proof.
+  intros h q h' H. unfold dec_keep in H. destruct (is_live (get_obj h q) && (0 <? o_cnt (get_obj h q))); inversion H; subst.
+  apply frame_upd. split; auto.
+Qed.
+
+Lemma frame_write : forall h stk l v h1 stk1, write_slot h stk l v = (h1, stk1) -> heap_frame h h1.
+Proof.
+  intros h stk [i|q j] v h1 stk1 H; cbn in H; inversion H; subst; [apply heap_frame_refl|].
+  apply frame_upd. split; auto.
+Qed.
+
+Lemma slabs_of_dec_of : forall old, slabs_of (dec_of old) = [].
+Proof. intros [[q [|]]|]; reflexivity. Qed.
+
+Definition bad56 (e : event) : bool := match e with EvBad w => (w =? 5) || (w =? 6) | _ => false end.
+
+(* the actions that do not involve the pool *)
+Definition pool_free_act (h : list obj) (a : act) : Prop :=
+  match a with
+  | APoolObt _ | ADrain | ASlabDel _ => False
+  | ARel o n => is_releasing (get_obj h o) = true -> n < length (o_mem (get_obj h o)) \/ o_pooled (get_obj h o) = false
+  | _ => True
+  end.
+
+Lemma do_act_frame : forall h p stk a rest h' stk' todo' p' ev, pool_free_act h a ->
+  do_act N K h p stk a rest = (h', stk', todo', p', ev) ->
+  p' = p /\ heap_frame h h' /\ slabs_of todo' = slabs_of (a :: rest) /\ bad56 ev = false.
+Proof.
+  intros h p stk a rest h' stk' todo' p' ev Hpf H. destruct a; cbn [do_act] in H; cbn in Hpf; try tauto.
+  - destruct (inc_obj h o) eqn:E; inversion H; subst; (split; [reflexivity|split; [|split; [reflexivity|reflexivity]]]);
+      first [eapply frame_inc; eassumption | apply heap_frame_refl].
+  - destruct (dec_obj h o) as [[h2 [|]]|] eqn:E; inversion H; subst; (split; [reflexivity|split; [|split; [reflexivity|reflexivity]]]);
+      first [eapply frame_dec; eassumption | apply heap_frame_refl].
+  - destruct (dec_keep h o) eqn:E; inversion H; subst; (split; [reflexivity|split; [|split; [reflexivity|reflexivity]]]);
+      first [eapply frame_dec_keep; eassumption | apply heap_frame_refl].
+  - destruct (write_slot h stk l None) as [h1 stk1] eqn:E. inversion H; subst. fold (dec_of (read_slot h stk l)).
+    split; [reflexivity|split; [eapply frame_write; eauto|split; [|reflexivity]]]. rewrite slabs_of_app, slabs_of_dec_of. reflexivity.
+  - destruct (read_slot h stk l) as [[q [|]]|] eqn:Er.
+    + destruct (write_slot h stk l (Some (q, false))) as [h1 stk1] eqn:E. inversion H; subst.
+      split; [reflexivity|split; [eapply frame_write; eauto|split; reflexivity]].
+    + inversion H; subst. split; [reflexivity|split; [apply heap_frame_refl|split; reflexivity]].
+    + inversion H; subst. split; [reflexivity|split; [apply heap_frame_refl|split; reflexivity]].
+  - destruct (write_slot h stk l v) as [h1 stk1] eqn:E. inversion H; subst. fold (dec_of (read_slot h stk l)).
+    split; [reflexivity|split; [eapply frame_write; eauto|split; [|reflexivity]]]. rewrite slabs_of_app, slabs_of_dec_of. reflexivity.
+  - destruct (is_releasing (get_obj h o)) eqn:Er; cbn [negb] in H;
+      [|inversion H; subst; split; [reflexivity|split; [apply heap_frame_refl|split; reflexivity]]].
+    destruct (n <? length (o_mem (get_obj h o))) eqn:En.
+    + inversion H; subst. fold (dec_of (nth (rel_index (get_obj h o) n) (o_mem (get_obj h o)) None)).
+      split; [reflexivity|split; [apply frame_upd; split; auto|split; [|reflexivity]]]. rewrite slabs_of_app, slabs_of_dec_of. reflexivity.
+    + apply Nat.ltb_ge in En. destruct (Hpf eq_refl) as [Hx|Hx]; [lia|]. rewrite Hx in H. inversion H; subst.
+      split; [reflexivity|split; [|split; reflexivity]]. apply frame_upd. split; auto. intros Hp. cbn in Hp. congruence.
+Qed.
+
+
+Lemma slabs_of_reset : forall l q, slabs_of (reset_acts l q) = [].
+Proof. intros l [[y [|]]|]; reflexivity. Qed.
+
+Lemma slabs_of_setref : forall l q p c src, slabs_of (setref_acts l q p c src) = [].
+Proof.
+  intros l q p c src. unfold setref_acts. destruct p as [o|]; [|apply slabs_of_reset].
+  destruct (opt_eqb (ptr q) (Some o)).
+  - destruct (counting q), c; reflexivity.
+  - unfold take_acts. destruct c; destruct q as [[y [|]]|]; reflexivity.
+Qed.
+
+Lemma slabs_of_cast : forall l q p c src, slabs_of (castassign_acts l q p c src) = [].
+Proof. intros l q p c src. unfold castassign_acts. destruct p as [o|]; [destruct c; reflexivity|apply slabs_of_reset]. Qed.
+
+Lemma begin_frame : forall s t stk op prog h' stk' todo' ok, inv1 K s -> t < length (s_thr s) ->
+  thr s t = mkThr stk [] (op :: prog) -> prog_ok op = true ->
+  begin_op K (s_heap s) stk op = (h', stk', todo', ok) ->
+  heap_frame (s_heap s) h' /\ slabs_of todo' = [].
+Proof.
+  intros s t stk op prog h' stk' todo' ok I Ht E Hop Hb.
+  destruct op as [i pooled|dst src|dst src|dst src|l|a b|dst src|i v|]; cbn [begin_op] in Hb; try discriminate.
+  - destruct (i <? length stk); [|injection Hb as <- <- <- <-; split; [apply heap_frame_refl|reflexivity]].
+    destruct pooled; injection Hb as <- <- <- <-.
+    + split; [apply heap_frame_refl|reflexivity].
+    + split; [|exact (slabs_of_setref (RStk i) (nth i stk None) (Some (length (s_heap s))) true None)]. split; [rewrite app_length; lia|]. split.
+      * intros x Hx. destruct (Nat.eq_dec x (length (s_heap s))) as [->|Hne].
+        -- unfold get_obj. rewrite nth_app_new. reflexivity.
+        -- unfold get_obj. rewrite nth_overflow by (rewrite app_length; cbn; lia). reflexivity.
+      * intros x Hx. unfold get_obj. rewrite app_nth1 by auto. apply obj_frame_refl.
+  - destruct (resolve_r (s_heap s) stk src) as [[rs p]|]; [|injection Hb as <- <- <- <-; split; [apply heap_frame_refl|reflexivity]].
+    destruct (resolve_w (s_heap s) stk dst (ptr p)) as [[rd q]|]; injection Hb as <- <- <- <-; split; try apply heap_frame_refl; auto.
+    apply slabs_of_setref.
+  - destruct (resolve_r (s_heap s) stk src) as [[rs p]|]; [|injection Hb as <- <- <- <-; split; [apply heap_frame_refl|reflexivity]].
+    destruct (resolve_w (s_heap s) stk dst (ptr p)) as [[rd q]|]; injection Hb as <- <- <- <-; split; try apply heap_frame_refl; auto.
+    apply slabs_of_setref.
+  - destruct (resolve_w (s_heap s) stk l None) as [[rd q]|]; injection Hb as <- <- <- <-; split; try apply heap_frame_refl; auto.
+    apply slabs_of_reset.
+  - destruct (resolve_r (s_heap s) stk a) as [[ra0 va]|]; [|injection Hb as <- <- <- <-; split; [apply heap_frame_refl|reflexivity]].
+    destruct (resolve_r (s_heap s) stk b) as [[rb0 vb]|]; [|injection Hb as <- <- <- <-; split; [apply heap_frame_refl|reflexivity]].
+    destruct (resolve_w (s_heap s) stk a (ptr vb)) as [[ra qa]|]; [|injection Hb as <- <- <- <-; split; [apply heap_frame_refl|reflexivity]].
+    destruct (resolve_w (s_heap s) stk b (ptr va)) as [[rb qb]|]; [|injection Hb as <- <- <- <-; split; [apply heap_frame_refl|reflexivity]].
+    destruct (rloc_eqb ra rb); [injection Hb as <- <- <- <-; split; [apply heap_frame_refl|reflexivity]|].
+    destruct (write_slot (s_heap s) stk ra vb) as [h1 stk1] eqn:Hw1.
+    destruct (write_slot h1 stk1 rb va) as [h2 stk2] eqn:Hw2. injection Hb as <- <- <- <-.
+    split; [|reflexivity]. eapply heap_frame_trans; eapply frame_write; eauto.
+  - destruct (resolve_r (s_heap s) stk src) as [[rs p]|]; [|injection Hb as <- <- <- <-; split; [apply heap_frame_refl|reflexivity]].
+    destruct (resolve_w (s_heap s) stk dst (ptr p)) as [[rd q]|]; injection Hb as <- <- <- <-; split; try apply heap_frame_refl; auto.
+    apply slabs_of_cast.
+  - destruct (nth i stk None) as [[q [|]]|] eqn:Eq; try (injection Hb as <- <- <- <-; split; [apply heap_frame_refl|reflexivity]).
+    destruct (o_cnt (get_obj (s_heap s) q) =? 1); injection Hb as <- <- <- <-; (split; [|reflexivity]); [|apply heap_frame_refl].
+    assert (Hq' : nth i (t_stk (thr s t)) None = Some (q, true)) by (rewrite E; auto).
+    destruct (held_live K s t i q I Ht Hq') as (Hl & _).
+    apply frame_upd. split; auto. intros Hp. cbn. split; auto. intros Hnl. unfold hobj in Hl. congruence.
+  - injection Hb as <- <- <- <-. split; [apply heap_frame_refl|reflexivity].
+Qed.
+
+
+(* ------------------------------------------------------------------ the pool-free steps *)
+
+Lemma plink_of_frame : forall s t stk todo prog stk' todo' prog' h',
+  plink s -> t < length (s_thr s) -> thr s t = mkThr stk todo prog ->
+  heap_frame (s_heap s) h' -> slabs_of todo' = slabs_of todo ->
+  plink (with_thr s t (mkThr stk' todo' prog') h' (s_pool s)).
+Proof.
+  intros s t stk todo prog stk' todo' prog' h' P Ht E (F1 & F2 & F3) Hs.
+  apply (plink_frame s); auto.
+  apply pend_same; auto. rewrite E. exact Hs.
+Qed.
+
+(* ------------------------------------------------------------------ slab deletion *)
+
+Lemma pend_ok_tail : forall hlen sd l, pend_ok hlen (sd :: l) -> pend_ok hlen l.
+Proof.
+  intros hlen sd l (H1 & H2 & H3). split; [inversion H1; auto|]. split; [inversion H2; auto|].
+  intros a b x Ia Ib. apply H3; right; auto.
+Qed.
+
+Lemma pend_head_disjoint : forall hlen sd l x, 1 <= N -> pend_ok hlen (sd :: l) -> owns N sd x = true -> ~ owned_by l x.
+Proof.
+  intros hlen sd l x HN (H1 & H2 & H3) Ho (sd' & Hin & Ho'). cbn in H2. inversion H2 as [|b bs Hni Hnd]; subst.
+  apply Hni. rewrite (H3 sd sd' x (or_introl eq_refl) (or_intror Hin) Ho Ho'). apply in_map; auto.
+Qed.
+
+Lemma plink_slabdel : forall s t stk sd rest prog, 1 <= N ->
+  plink s -> t < length (s_thr s) -> thr s t = mkThr stk (ASlabDel sd :: rest) prog ->
+  range_all (s_heap s) (sl_base sd) N is_pooled_st = true /\
+  plink (with_thr s t (mkThr stk rest prog) (set_range (s_heap s) (sl_base sd) N (fun ob => set_st ob Dead)) (s_pool s)).
+Proof.
+  intros s t stk sd rest prog HN P Ht E. pose proof P as [P1 P2 P2b P3 P4 P5 P6 P7].
+  set (s' := with_thr s t (mkThr stk rest prog) (set_range (s_heap s) (sl_base sd) N (fun ob => set_st ob Dead)) (s_pool s)).
+  assert (HP : Permutation (pend s) (sd :: pend s')).
+  { pose proof (pend_with s t (mkThr stk rest prog) (set_range (s_heap s) (sl_base sd) N (fun ob => set_st ob Dead)) (s_pool s) Ht) as H.
+    fold s' in H. rewrite E in H. cbn [t_todo slabs_of] in H.
+    assert (H2 : Permutation ((sd :: pend s') ++ slabs_of rest) (pend s ++ slabs_of rest)).
+    { eapply Permutation_trans; [|exact H]. cbn [app]. apply Permutation_middle. }
+    apply Permutation_app_inv_r in H2. apply Permutation_sym. exact H2. }
+  assert (Hin : In sd (pend s)) by (eapply Permutation_in; [apply Permutation_sym; eauto|left; auto]).
+  assert (Hown_pooled : forall x, owns N sd x = true -> o_st (hobj s x) = Pooled) by (intros x Hx; apply P5; exists sd; auto).
+  assert (Hrange : forall x, owns N sd x = ((sl_base sd <=? x) && (x <? sl_base sd + N))) by reflexivity.
+  split.
+  - (* every object of the slab is pooled *)
+    assert (G : forall n, n <= N -> range_all (s_heap s) (sl_base sd) n is_pooled_st = true).
+    { induction n as [|n IH]; intros Hn; cbn; auto. rewrite IH by lia. rewrite andb_true_r.
+      unfold is_pooled_st. rewrite (Hown_pooled (sl_base sd + n)); auto. apply owns_spec. lia. }
+    apply G; auto.
+  - assert (Hget : forall x, hobj s' x = if owns N sd x then set_st (hobj s x) Dead else hobj s x).
+    { intros x. unfold hobj, s'; cbn [s_heap with_thr]. rewrite set_range_get by auto. rewrite Hrange. reflexivity. }
+    assert (P2' : pend_ok (length (s_heap s)) (sd :: pend s')) by (eapply pend_ok_perm; eauto).
+    assert (Hsub : forall x, owned_by (pend s') x -> owned_by (pend s) x /\ owns N sd x = false).
+    { intros x Hx. split.
+      - eapply owned_perm; [apply Permutation_sym; eauto|]. destruct Hx as (a & Ia & Oa). exists a; split; auto. right; auto.
+      - destruct (owns N sd x) eqn:Eo; auto. exfalso. eapply (pend_head_disjoint _ sd (pend s') x); eauto. }
+    assert (Hlisted : forall x, owned_by (p_slabs (s_pool s)) x -> owns N sd x = false).
+    { intros x Hx. destruct (owns N sd x) eqn:Eo; auto. exfalso. apply (P2b x); auto. exists sd; auto. }
+    constructor; unfold s'; cbn [s_pool s_heap with_thr]; rewrite ?set_range_length; fold s'.
+    + exact P1.
+    + eapply pend_ok_tail; eauto.
+    + intros x Hx. apply P2b. apply Hsub; auto.
+    + intros x Hx. rewrite Hget, (Hlisted x (pfree_owned _ _ Hx)). auto.
+    + intros x Hx. rewrite Hget, (Hlisted x (pused_owned _ _ Hx)). auto.
+    + intros x Hx. destruct (Hsub x Hx) as (A & B). rewrite Hget, B. auto.
+    + intros x Hx Hp Hd. rewrite Hget in Hp, Hd. destruct (owns N sd x) eqn:Eo; [cbn in Hd; congruence|].
+      specialize (P6 x Hx Hp Hd). apply owned_app in P6. apply owned_app. destruct P6 as [A|A]; auto. left.
+      destruct A as (a & Ia & Oa). eapply Permutation_in in Ia; [|eauto]. destruct Ia as [<-|Ia]; [congruence|]. exists a; auto.
+    + intros x Hx. rewrite Hget. assert (Hx' : owned_by (pend s ++ p_slabs (s_pool s)) x).
+      { apply owned_app in Hx. apply owned_app. destruct Hx as [A|A]; auto. left. apply Hsub; auto. }
+      specialize (P7 x Hx'). destruct (owns N sd x); auto.
 Qed.
 
 End PoolLink.
